@@ -260,3 +260,10 @@ pub fn run(tier: Tier, seed: u64) -> i32 {
         run.run_random("rewrites", tier.pick(8_000, 200_000), 600, |u| rewrite_case(u, sz));
     })
 }
+
+/// entry for the structured libFuzzer target: canonical and variant text of one AST must parse to
+/// the same program
+pub fn fuzz_same_program(canon: &str, variant: &str) -> Result<(), String> {
+    let mut ev = 0;
+    same_meaning(canon, variant, &[], true, &mut ev).map_err(|(m, s)| format!("{} [{}]", m, s))
+}
